@@ -3,6 +3,7 @@ package hand
 import (
 	"bytes"
 	"fmt"
+	"strconv"
 
 	pf "github.com/weedbox/pokerface"
 
@@ -11,8 +12,18 @@ import (
 
 func init() { Visitors["C12"] = func() Visitor { return &c12{} } }
 
-// c12: minimum-raise rule and amount safety.
+// c12: minimum-raise rule and amount safety. The monitor (part of the search
+// key) is the reference minimum raise increment: "the size of the previous bet
+// or raise of the round (the big blind before any)", tracked from the amounts
+// that actually went in, not from the engine's own bookkeeping.
 type c12 struct{ Base }
+
+func (v *c12) InitMon(x *Ctx, gs *pf.GameState) string { return "0" }
+
+func refMinRaise(mon string) int64 {
+	r, _ := strconv.ParseInt(mon, 10, 64)
+	return r
+}
 
 func amountClass(a int64) string {
 	switch {
@@ -38,11 +49,48 @@ func (v *c12) safety(x *Ctx, pre, post *pf.GameState, op Op) {
 }
 
 func (v *c12) OnStep(x *Ctx, s *St, op Op, post *pf.GameState) string {
+	mon := v.step(x, s, op, post)
+	if post.Status.CurrentEvent != "RoundStarted" {
+		return "0" // between rounds the reference is irrelevant: keep the key canonical
+	}
+	return mon
+}
+
+func (v *c12) step(x *Ctx, s *St, op Op, post *pf.GameState) string {
 	pre := s.GS
 	v.safety(x, pre, post, op)
-	if pre.Status.CurrentEvent != "RoundStarted" || !actionKinds[op.Kind] {
-		return ""
+	// a betting round opens: before any bet the big blind is the minimum raise (preflop)
+	if post.Status.CurrentEvent == "RoundStarted" && pre.Status.CurrentEvent != "RoundStarted" {
+		if post.Status.Round == "preflop" {
+			c := x.Run.Cfg
+			if c.BB > 0 {
+				return strconv.FormatInt(c.BB, 10)
+			}
+			return strconv.FormatInt(c.DealerBlind, 10)
+		}
+		return "0"
 	}
+	if pre.Status.CurrentEvent != "RoundStarted" || !actionKinds[op.Kind] {
+		return s.Mon
+	}
+	refR := refMinRaise(s.Mon)
+	next := s.Mon
+	if inc := post.Status.CurrentWager - pre.Status.CurrentWager; inc > 0 && post.Status.Round == pre.Status.Round {
+		switch op.Kind {
+		case "Bet":
+			next = strconv.FormatInt(inc, 10)
+		case "Raise", "Allin":
+			if inc >= refR {
+				next = strconv.FormatInt(inc, 10)
+			}
+		}
+	}
+	v.raiseRule(x, s, op, post, refR)
+	return next
+}
+
+func (v *c12) raiseRule(x *Ctx, s *St, op Op, post *pf.GameState, R int64) string {
+	pre := s.GS
 	if post.Status.Round == pre.Status.Round && post.Status.CurrentWager < pre.Status.CurrentWager {
 		x.Violate("wager-decreased:"+op.Kind, "the wager to match went down within a round", fmt.Sprintf(">= %d", pre.Status.CurrentWager), fmt.Sprint(post.Status.CurrentWager), op)
 	}
@@ -51,7 +99,7 @@ func (v *c12) OnStep(x *Ctx, s *St, op Op, post *pf.GameState) string {
 		return ""
 	}
 	x.Run.Count("raises_checked", 1)
-	W, R := pre.Status.CurrentWager, pre.Status.PreviousRaiseSize
+	W := pre.Status.CurrentWager
 	S := pre.Players[c].InitialStackSize
 	L := op.Arg
 	if L < W {
@@ -91,7 +139,7 @@ func (v *c12) OnRefused(x *Ctx, s *St, op Op, err error, post *pf.GameState) {
 	pre := s.GS
 	c := pre.Status.CurrentPlayer
 	if op.Kind == "Raise" && x.Run.Cfg.Limit == "no" && c >= 0 && c < len(pre.Players) {
-		W, R, S := pre.Status.CurrentWager, pre.Status.PreviousRaiseSize, pre.Players[c].InitialStackSize
+		W, R, S := pre.Status.CurrentWager, refMinRaise(s.Mon), pre.Players[c].InitialStackSize
 		if op.Arg > W && op.Arg-W >= R && op.Arg < S {
 			x.Report("legal-raise-refused", fmt.Sprintf("raise to %d (wager %d, minimum increment %d, stack %d) was refused", op.Arg, W, R, S), "carried out exactly", err.Error(), op)
 		}
